@@ -58,6 +58,12 @@ def decl_menu():
         out.append(("decl/enum-from-int/static-local", "enum E { A, B }; long f(void){ static enum E e = %s; return (long)e; }" % i))
         out.append(("decl/enum-from-int/struct-member", "enum E { A, B }; struct S { enum E e; int n; } s = { %s, 2 }; long f(void){ return (long)s.e; }" % i))
         out.append(("decl/enum-from-int/array", "enum E { A, B }; enum E a[2] = { %s }; long f(void){ return (long)a[0]; }" % i))
+    out.append(("decl/bitfield-unnamed", "struct B { unsigned a : 3; unsigned : 5; unsigned b : 4; } b = { 7, 9 }; int f(void){ return b.a + b.b; }"))
+    out.append(("decl/bitfield-zero-width", "struct B { unsigned a : 3; int : 0; char c : 8; } b; int f(void){ b.a = 5; b.c = 7; return b.a + b.c; }"))
+    out.append(("decl/bitfield-zero-width-between-chars", "struct T { char a; int : 0; char b; } t; int f(void){ t.a = 1; t.b = 2; return t.a + t.b; }"))
+    for w in ["0", "1", "31", "32", "33", "64", "(-1)", "(1 - 2)", "4294967295u", "(1 ? 40 : 2)"]:
+        out.append(("decl/bitfield-width-range", "struct B { unsigned a : %s; unsigned b : 2; } b; int f(void){ b.b = 1; return b.b; }" % w))
+        out.append(("decl/bitfield-width-range-ll", "struct B { unsigned long long a : %s; int b : 2; } b; int f(void){ b.b = 1; return b.b; }" % w))
     out.append(("decl/bool", "_Bool b = 1; int f(void){ return b; }"))
     out.append(("decl/compound-literal", "struct P { int x; int y; }; int f(void){ struct P p = (struct P){1, 2}; return p.x + p.y; }"))
     out.append(("decl/vla-free", "int f(int n){ int a[4]; int i; for (i = 0; i < 4; i++) a[i] = n; return a[3]; }"))
